@@ -138,6 +138,9 @@ structure Cont where
       (the local view is already "expired"): `some (pre, leader)` – `pre`: the request has not reached etcd yet;
       `leader`: the call is `Member.ResetLeader`, which unsets the leader cache after `Reset` returns -/
   closing : Option (Bool × Bool) := none
+  /-- in-memory id window `(idBase, idEnd]` of the member's id allocator (`allocatorImpl.base/end`) -/
+  idBase  : Nat := 0
+  idEnd   : Nat := 0
   deriving Repr
 
 def Expire.expiredAt (x : Expire) (now : Nat) : Bool :=
@@ -180,6 +183,7 @@ inductive Out where
   | bool (b : Bool) | served | refused
   | leaderIs (m : Nat) | noLeader | deleted
   | lease (id : Nat)
+  | gotId (n : Nat)
   deriving Repr, DecidableEq
 
 def Out.toString : Out → String
@@ -189,6 +193,7 @@ def Out.toString : Out → String
   | .served => "served" | .refused => "refused"
   | .leaderIs m => s!"leader {m}" | .noLeader => "no-leader" | .deleted => "deleted"
   | .lease id => s!"lease {id}"
+  | .gotId n => s!"ok {n}"
 
 def maxLeaseTTL : Nat := 9000000000
 
@@ -297,6 +302,7 @@ inductive LOp where
   | rfinish (rv : Bool)
   | delkey (f : Fault) (rv : Bool)
   | write (w : WKind) (f : Fault)
+  | idalloc (f : Fault)
   | check
   | isleader
   | tso
@@ -367,6 +373,17 @@ def loc (x : Loc) : LOp → Loc × Out
     | .ok => (resetStep { x with etcd := e1 } rv, .ok)
     | o => ({ x with etcd := e1 }, o)
   | .write w f => if x.c.pending.isSome then (x, .bad) else writeStep x w f
+  | .idalloc f =>
+    -- `allocatorImpl.Alloc`: when the in-memory window is used up, extend the stored window by the guarded
+    -- transaction first (the memory is published only after it succeeded); then hand out the next id
+    if x.c.pending.isSome then (x, .bad) else
+    if x.c.idBase == x.c.idEnd then
+      match writeStep x .idRebase f with
+      | (x1, .ok) =>
+        let e := match x1.etcd.kv (.allocId x.c.key) with | some y => y.val | none => 0
+        ({ x1 with c := { x1.c with idBase := e - allocStep + 1, idEnd := e } }, .gotId (e - allocStep + 1))
+      | r => r
+    else ({ x with c := { x.c with idBase := x.c.idBase + 1 } }, .gotId (x.c.idBase + 1))
   | .check => (x, .bool x.c.check)
   | .isleader => (x, .bool x.c.isLeader)
   | .tso => (x, if x.c.tsoServes then .served else .refused)
